@@ -23,7 +23,10 @@ RULE = ("sentences of 1..10 values generated from (value, spelling) choices of d
 TRUSTED = ["harness/h_C10.cpp", "the generator's own denotation of each spelling (Python), incl. Python's "
            "float() for decimal floating point literals"]
 ASSUMPTIONS = ["TZ=UTC; glibc sscanf", "decimal floating point literals are chosen so that double rounding "
-               "(decimal -> double -> float) cannot differ from strtof"]
+               "(decimal -> double -> float) cannot differ from strtof",
+               "the manual does not say how an integer literal with a leading 0 is read: the oracle follows the "
+               "code's format selection - a plain \"077\" is read by %d (decimal, 77), the suffixed \"077i\" by "
+               "%i (octal, 63); a reading of the documentation under which both are octal would make \"077\" a finding"]
 
 def hx(b):
     return bytes(b).hex() if len(b) else "-"
@@ -523,13 +526,47 @@ def nontrivial(case, impl):
     text = bytes.fromhex(f[1])
     return ";" in f[2] and (b"%" in text or b"0x" in text or b"..." in text or b"e" in text)
 
+def _array_ends(slots):
+    """indices of the last slot of every array in the flat slot list (nested arrays included)"""
+    ends = set()
+    for h, t in enumerate(slots):
+        if t.startswith("a:"):
+            try:
+                n = int(t.split(":")[2])
+            except (IndexError, ValueError):
+                continue
+            if n > 0:
+                ends.add(h + n)
+    return ends
+
 def classify(case, impl, failure):
-    """range-after-array: a range "b ... c" whose left neighbour is an array ending in a value of b's type"""
+    """range-after-array: a range "b ... c" directly behind an array whose last slot has b's type.  The
+    checker counts it with the unit step, the scanner takes the array's last value for the left neighbour:
+    the scanned slots differ from the denotation in that range's count and step ONLY (failure kind
+    denote; crashes, rejected or partly consumed texts and any other difference are not classified)."""
     import re
-    text = bytes.fromhex(case.split(" ")[1]).decode("latin-1")
-    text = re.sub(r"(^|\s)%[^\n]*", " ", text)
-    if re.search(r"[0-9a-zA-Z'\"]h?(\s*\])+\s+[-+0-9'][^\s]*\s+\.\.\.", text):
-        return "range-after-array"
+    f = case.split(" ")
+    if failure.startswith("denote: ") and "=" in impl:
+        d = fields(impl)
+        exp = f[2].split(";")
+        got = d.get("V", "-").split(";")
+        text = re.sub(r"(^|\s)%[^\n]*", " ", bytes.fromhex(f[1]).decode("latin-1"))
+        diff = [i for i in range(min(len(exp), len(got))) if exp[i] != got[i]]
+        if (len(exp) == len(got) and diff and re.search(r"\]\s+[^\s\[\]]+\s+\.\.\.", text)):
+            p = diff[0]
+            ends = _array_ends(exp)
+            # the misread range, and the ranges of its type that follow it directly: each takes the
+            # last value of the one before for its left neighbour, so the wrong step is handed on
+            allowed, q = set(), p
+            while (q + 2 < len(exp) and exp[q].startswith("R:") and exp[q].endswith(":1")
+                   and got[q].startswith("R:") and got[q].endswith(":1") and exp[q + 2] == got[q + 2]
+                   and exp[q + 1][:1] == got[q + 1][:1] and exp[q + 2][:1] == exp[p + 2][:1]):
+                allowed |= {q, q + 1}
+                q += 3
+            if (allowed and all(i in allowed for i in diff)
+                    and (p - 1) in ends                      # the slot before the range closes an array
+                    and exp[p - 1][:1] == exp[p + 2][:1]):   # ... and has the type of the range's first value
+                return "range-after-array"
     if failure.startswith("reprint"):
         d = fields(impl)
         p2 = bytes.fromhex(d["P2"]) if d.get("P2", "-") != "-" else b""
